@@ -1,14 +1,14 @@
 #!/bin/bash
-# eval_round.sh <tag>   e.g. r5 — for every /tmp/cNN-<tag>-mutant-K: confirm it (scratch worktree), then try the owning
+# eval_round.sh <tag> [cNN]    e.g. r5 — for every /tmp/cNN-<tag>-mutant-K: confirm it (scratch worktree), then try the owning
 # check and its neighbours (quick tier, scratch worktree via try_mutant.sh) until one reports it. Sequential on purpose.
 TAG="$1"
 pk() { case $1 in c06|c07|c11) echo sourceaddrs;; c08|c09|c10|c12|c13|c14|c17|c18) echo sourcebundle;; *) echo .;; esac; }
 rel() { case $1 in
- c01) echo "C01 C04";; c02) echo "C02 C15";; c03) echo "C03 C09 C16";; c04) echo "C04 C01 C15";; c05) echo "C05 C04 C02";;
+ c01) echo "C01 C04";; c02) echo "C02 C15 C03";; c03) echo "C03 C09 C16";; c04) echo "C04 C01 C15";; c05) echo "C05 C04 C02";;
  c06) echo "C06 C11";; c07) echo "C07";; c08) echo "C08 C14 C12 C13";; c09) echo "C09 C02 C15";; c10) echo "C10 C03 C08 C13";;
  c11) echo "C11 C06";; c12) echo "C12";; c13) echo "C13 C17 C08";; c14) echo "C14 C08 C12 C13 C10";; c15) echo "C15 C02";;
  c16) echo "C16 C05";; c17) echo "C17 C13";; c18) echo "C18 C19";; c19) echo "C19 C05 C03 C16";; c20) echo "C20 C12";; esac; }
-for d in /tmp/c*-$TAG-mutant-*; do
+for d in /tmp/${2:-c*}-$TAG-mutant-*; do
   [ -d "$d" ] || continue
   n=$(basename $d); id=${n%%-*}
   p=$(pk $id)
